@@ -1855,6 +1855,7 @@ class Engine:
         if r['failed'] >= self.opts.get('max_violations_per_label', 2):
             # already reported for this harness: do not spend solver time on more witnesses of the same failure
             r['skipped_after_failure'] = r.get('skipped_after_failure', 0) + 1
+            st.ghost['no_witness'] = True   # this path is not known to satisfy its assertions
             if cond is False:
                 raise PathEnd('assert-false')
             return
@@ -1901,6 +1902,7 @@ class Engine:
             m = self.solver.model()
             self.solver.done()
             r['failed'] += 1
+            st.ghost['no_witness'] = True
             self.report_violation(st, label, m)
             if cond is False:
                 raise PathEnd('assert-false')
